@@ -351,7 +351,17 @@ public:
         (void)peek;
         out.clear();
         using slot = std::conditional_t<kSet, bool, std::optional<V>>;
-        auto call  = [&](auto& r) {
+        // Some slots are handed in already holding a stale result: a lookup that misses must overwrite it
+        // (C18: find_range_fill reports exactly what the single lookups report).
+        auto stale = [](int k, size_t pos) -> slot {
+            if ((static_cast<size_t>(k) + pos) % 3 != 0)
+                return slot{};
+            if constexpr (kSet)
+                return true;
+            else
+                return slot{VC::make(999'000'000ull + static_cast<uint64_t>(k))};
+        };
+        auto call = [&](auto& r) {
             if constexpr (kPeekEnum)
                 m_c->find_range_fill(r, to_peek(peek));
             else if constexpr (kPeekBool)
@@ -363,7 +373,7 @@ public:
         {
             std::map<K, slot> r;
             for (int k : ks)
-                r.emplace(KT::get(k), slot{});
+                r.emplace(KT::get(k), stale(k, 0));
             call(r);
             collect(assoc_order(ks), r, out);
             return;
@@ -374,7 +384,7 @@ public:
             {
                 std::vector<std::pair<K, slot>> r;
                 for (int k : ks)
-                    r.emplace_back(KT::get(k), slot{});
+                    r.emplace_back(KT::get(k), stale(k, r.size()));
                 m_c->find_range_fill(r.begin(), r.end());
                 collect(ks, r, out);
                 return;
@@ -383,7 +393,7 @@ public:
             {
                 std::list<std::pair<K, slot>> r;
                 for (int k : ks)
-                    r.emplace_back(KT::get(k), slot{});
+                    r.emplace_back(KT::get(k), stale(k, r.size()));
                 m_c->find_range_fill(r.begin(), r.end());
                 collect(ks, r, out);
                 return;
@@ -391,7 +401,7 @@ public:
         }
         std::vector<std::pair<K, slot>> r;
         for (int k : ks)
-            r.emplace_back(KT::get(k), slot{});
+            r.emplace_back(KT::get(k), stale(k, r.size()));
         call(r);
         collect(ks, r, out);
     }
